@@ -173,6 +173,7 @@ static rc::Gen<OpSeq> genCase(int tier)
         EncGenParams p;
         p.maxBatch = 5;
         p.frameBudget = 3000;
+        p.beyond16Bit = true;
         for (int i = 0; i < n; ++i)
         {
             EncOp op;
